@@ -150,6 +150,50 @@ func c20ValueHistory(c *Ctx, r *rng.R) {
 	for k := 0; k < 3; k++ {
 		add(fmt.Sprintf("v%d", k), gv.Gen(r, gt.Gen(r, gt.Cfg{Depth: 2, MaxWidth: 3}), cfg, 3))
 	}
+	// paths and path sets are values too: deriving from one must not disturb another
+	type livePath struct {
+		name string
+		p    cty.Path
+		fp   string
+	}
+	var paths []livePath
+	pset := cty.NewPathSet()
+	var psetFP string
+	pfp := func(p cty.Path) string { return fmt.Sprintf("%#v", p) }
+	psfp := func() string {
+		var l []string
+		for _, p := range pset.List() {
+			l = append(l, pfp(p))
+		}
+		sort.Strings(l)
+		return strings.Join(l, ";")
+	}
+	addPath := func(name string, p cty.Path) { paths = append(paths, livePath{name, p, pfp(p)}) }
+	checkPaths := func(step string) bool {
+		for _, lp := range paths {
+			if got := pfp(lp.p); got != lp.fp {
+				c.Fail("C20/path-changed", fmt.Sprintf("after %s the path %s reads %s; before: %s", step, lp.name, got, lp.fp), map[string]interface{}{"history": strings.Join(history, "; ")})
+				return false
+			}
+		}
+		if got := psfp(); got != psetFP {
+			c.Fail("C20/path-changed", fmt.Sprintf("after %s the path set holds %s; before: %s", step, got, psetFP), map[string]interface{}{"history": strings.Join(history, "; ")})
+			return false
+		}
+		return true
+	}
+	{
+		base := cty.GetAttrPath("a")
+		for k, m := 0, r.Intn(7); k < m; k++ {
+			if r.Bool() {
+				base = base.GetAttr(fmt.Sprintf("b%d", k))
+			} else {
+				base = base.IndexInt(k)
+			}
+		}
+		addPath("base", base)
+		psetFP = psfp()
+	}
 	n := 6 + r.Intn(10)
 	for k := 0; k < n; k++ {
 		l := lives[r.Intn(len(lives))]
@@ -157,7 +201,31 @@ func c20ValueHistory(c *Ctx, r *rng.R) {
 		step := ""
 		recovered(func() {
 			u, _ := v.UnmarkDeep()
-			switch r.Intn(16) {
+			switch r.Intn(19) {
+			case 16, 17: // children of one parent path, by every deriving method
+				parent := paths[r.Intn(len(paths))]
+				var child cty.Path
+				switch r.Intn(4) {
+				case 0:
+					child = parent.p.GetAttr(fmt.Sprintf("c%d", k))
+				case 1:
+					child = parent.p.IndexInt(k)
+				case 2:
+					child = parent.p.IndexString(fmt.Sprintf("k%d", k))
+				default:
+					child = parent.p.Index(cty.NumberIntVal(int64(k)))
+				}
+				addPath(fmt.Sprintf("%s/child%d", parent.name, k), child)
+				step = "child of path " + parent.name
+			case 18: // path sets: add a live path, copy-free union / subtract results then mutated
+				lp := paths[r.Intn(len(paths))]
+				pset.Add(lp.p)
+				psetFP = psfp()
+				u1 := pset.Union(cty.NewPathSet())
+				u1.Add(cty.GetAttrPath("only-in-result"))
+				u2 := cty.NewPathSet().Union(pset)
+				u2.Remove(lp.p)
+				step = "path set Add(" + lp.name + "), unions with the empty set mutated"
 			case 0:
 				if u.IsKnown() && !u.IsNull() && (u.Type().IsListType() || u.Type().IsTupleType() || u.Type().IsSetType()) {
 					sl := u.AsValueSlice()
@@ -313,7 +381,7 @@ func c20ValueHistory(c *Ctx, r *rng.R) {
 		}
 		history = append(history, step)
 		c.Count("oracle_evals")
-		if !checkLive(c, lives, step, history) {
+		if !checkLive(c, lives, step, history) || !checkPaths(step) {
 			return
 		}
 	}
